@@ -10,7 +10,7 @@ import random
 
 import rx
 
-from ..common import Check, Outcome, Snap, subscribe, bootstrap, norm, interleave
+from ..common import Check, Outcome, Snap, subscribe, bootstrap, norm, interleave, with_prelude, prelude_tags, shrink_prelude, PRELUDE_TAGS
 from ..muxmon import tap
 from .. import progs, gen
 
@@ -141,10 +141,13 @@ class C10(Check):
                'rxsci/operators/distinct_until_changed.py', 'rxsci/data/lag.py', 'rxsci/data/pad.py', 'rxsci/operators/start_with.py',
                'rxsci/data/batch.py', 'rxsci/data/sort.py']
     REQUIRED_TAGS = ['first', 'last', 'take', 'distinct', 'duc', 'lag', 'pad_start', 'pad_end', 'start_with', 'batch', 'sort',
-                     'plain', 'mux', 'group', 'roll', 'split', 'scale', 'numpy-items', 'negative-values', 'empty', 'has-None', 'len-multiple-of-n']
+                     'plain', 'mux', 'group', 'roll', 'split', 'scale', 'numpy-items', 'negative-values', 'empty', 'has-None', 'len-multiple-of-n'] + PRELUDE_TAGS
     REQUIRED_OBSERVED = ['sequences_compared']
 
     def generate(self, rng, tier, shard, nshards):
+        return with_prelude(self._generate(rng, tier, shard, nshards), rng, size=lambda c: len(c['seq']))
+
+    def _generate(self, rng, tier, shard, nshards):
         return interleave(self._box(tier, shard, nshards), self._random(rng, tier))
 
     def _box(self, tier, shard, nshards):
@@ -194,6 +197,8 @@ class C10(Check):
     def evaluate(self, case):
         out = Outcome()
         node, mode, seq = case['op'], case['mode'], case['seq']
+        prelude = case.get('prelude')
+        prelude_tags(case, out)
         name = node[0]
         out.tags += [name, mode]
         if not seq:
@@ -222,9 +227,9 @@ class C10(Check):
                 return out
             op = build_op(node)
             if mode == 'plain':
-                s = subscribe(rx.from_(seq).pipe(op), Snap())
+                s = progs.run_obs(lambda src: src.pipe(op), seq, prelude=prelude)
             else:
-                s = subscribe(rx.from_(seq).pipe(rs.state.with_memory_store([op])), Snap())
+                s = progs.run_obs(lambda src: src.pipe(rs.state.with_memory_store([op])), seq, prelude=prelude)
             if s.err is not None or not s.done:
                 return out.fail('operator-errored', op=node, mode=mode, seq=seq, error=repr(s.err), done=s.done)
             want = list_def(node, seq)
@@ -241,7 +246,7 @@ class C10(Check):
             op = build_op(node)
             inner = [tap(head), op, tap(tail)]
             ctx = rs.data.roll(2, 2, inner) if mode == 'roll' else rs.data.split(KEYF['par'], inner)
-            s = subscribe(rx.from_(seq).pipe(rs.state.with_memory_store([ctx])), Snap())
+            s = progs.run_obs(lambda src: src.pipe(rs.state.with_memory_store([ctx])), seq, prelude=prelude, logs=(head, tail))
             if s.err is not None or not s.done:
                 return out.fail('operator-errored', op=node, mode=mode, seq=seq, error=repr(s.err), done=s.done)
             hl, odd1 = lifetimes(head)
@@ -265,8 +270,8 @@ class C10(Check):
             node = [name, node[1], ('pad', node[2])]
         head, tail = [], []
         op = build_op(node)
-        s = subscribe(rx.from_(items).pipe(rs.state.with_memory_store(
-            [rs.ops.group_by(lambda i: i[0], [tap(head), op, tap(tail)])])), Snap())
+        s = progs.run_obs(lambda src: src.pipe(rs.state.with_memory_store(
+            [rs.ops.group_by(lambda i: i[0], [tap(head), op, tap(tail)])])), items, prelude=prelude, logs=(head, tail))
         if s.err is not None or not s.done:
             return out.fail('operator-errored', op=node, mode=mode, items=items, error=repr(s.err), done=s.done)
         got = {g: [] for g in range(ng)}
@@ -295,6 +300,7 @@ class C10(Check):
         return {'shards_that_enumerated_their_part_of_the_box_completely': self.box_done}
 
     def shrink(self, case):
+        yield from shrink_prelude(case)
         seq = case['seq']
         for k in range(len(seq)):
             yield dict(case, seq=seq[:k] + seq[k + 1:])
